@@ -21,6 +21,7 @@ import (
 type checkFunc func(c *Ctx)
 
 var registry = map[string]checkFunc{}
+
 // replayers re-execute one stored case (keyed by the check name up to ':')
 // without any explorer and return the diff (empty = no longer reproduces).
 var replayers = map[string]func(c *Ctx, raw []byte) []string{}
